@@ -39,6 +39,9 @@ class Coherence(engine.Case):
     stubs = dict(det=True, inv=True, expm=True, qr=False, eigh=False, random=True)
     n_validate = 0
     holo = False
+    # the compared accumulator is a sum of |cached - recomputed|^2 over symbolic overlaps; that its normal form is the literal 0 is the
+    # result of the check, not a sign of a trivial obligation
+    all_nontrivial = True
 
     def __init__(self, args):
         self.args = args
